@@ -23,7 +23,7 @@ def population(ctx):
     for i in range(n):
         big = (not ctx.quick()) and rng.random() < 0.4
         es = specgen.gen_plain_einsum(rng, max_ranks=4 if big else 3, max_terms=3 if big else 2,
-                                      max_factors=3 if big else 2)
+                                      max_factors=3 if big else 2, out_only_p=0.1)
         mp = specgen.random_mapping(rng, es)
         specs.append((specgen.yaml_of(es["decl"], [es["expr"]], mp), es["shape"]))
     return specs
